@@ -279,3 +279,26 @@ def check(ctx, run):  # noqa: F811
     # axis with the path axis, or a member evaluated at another step, breaks the identity
     from .c03 import containers
     containers(ctx, run, rule="C02.R5")
+    option_classes_use_the_mixin(ctx, run, "C02.R1")
+
+
+def option_classes_use_the_mixin(ctx, run, rule):
+    """The feature/time-grid analyses interpret OptionMixin / BaseDerivative methods on a generic option; they speak for a concrete
+    derivative class only if that class does not replace those methods (resolution through the MRO computed from the sources)."""
+    prog = ctx.prog
+    DB = "pfhedge.instruments.derivative.base."
+    methods = ("moneyness", "log_moneyness", "time_to_maturity", "max_moneyness", "max_log_moneyness", "ul", "underliers", "spot", "simulate", "payoff", "clauses", "named_clauses")
+    classes = sorted(c for c in prog.subclasses(DB + "BaseDerivative") if c.startswith("pfhedge.instruments.derivative.") and c != DB + "BaseDerivative")
+    if len(classes) < 6:
+        raise AnalysisError(f"only {len(classes)} derivative classes found")
+    for cls in classes:
+        bad = []
+        for m_ in methods:
+            fi = prog.lookup_method(cls, m_)
+            if fi is not None and not fi.qualname.startswith((DB + "OptionMixin.", DB + "BaseDerivative.", "pfhedge.instruments.base.BaseInstrument.")):
+                bad.append(f"{m_} -> {fi.qualname}")
+        run.oblige(rule, f"{cls.rsplit('.', 1)[-1]}: path statistics, time grid and payoff plumbing are the base classes'", not bad, "; ".join(bad))
+        if bad:
+            ci = prog.classes[cls]
+            run.fail(Finding(rule, cls, "; ".join(bad)[:300], "this derivative class replaces a method the analysis interpreted on the generic option; its own version is not covered",
+                             file=str(prog.modules[ci.module].path), line=ci.node.lineno))
